@@ -14,6 +14,8 @@
 #include <sys/wait.h>
 #include <sched.h>
 #include <fstream>
+#include <chrono>
+#include <signal.h>
 using namespace vh;
 
 extern "C" struct randombytes_implementation randombytes_internal_implementation;
@@ -22,13 +24,15 @@ namespace {
 
 struct Case {
     int nthreads; uint64_t seed; int family; int ops;     // family 0: default RNG, 1: internal RNG installed before init
-    KV kv() const { KV k; k.u("nthreads", nthreads).u("seed", seed).u("family", family).u("ops", ops); return k; }
+    unsigned long mask = 0x3ff; int focus = -1;           // CPU-feature mask for the trial; focus >= 0: every thread runs that one API-table entry (same code, distinct buffers)
+    KV kv() const { KV k; k.u("nthreads", nthreads).u("seed", seed).u("family", family).u("ops", ops).u("mask", mask).u("focus", (unsigned long long) (focus + 1)); return k; }
 };
 
 // ------------------------------------------------------------------ the trial itself (runs in the exec'ed child)
 std::atomic<int> g_arrived{ 0 }, g_returned{ 0 }, g_overlap{ -1 }, g_zero{ 0 }, g_one{ 0 }, g_neg{ 0 };
 pthread_barrier_t g_bar;
 struct TArg { int id; uint64_t seed; int ops; uint64_t digest; };
+int g_focus = -1;
 
 uint64_t workload(uint64_t seed, int ops) {
     Rng r(seed);
@@ -37,6 +41,7 @@ uint64_t workload(uint64_t seed, int ops) {
     for (int i = 0; i < ops; i++) {
         size_t e = r.below(T.size());
         if (T[e].cost == 2 && r.below(4)) e = r.below(8);           // keep password hashing rare
+        if (g_focus >= 0) e = (size_t) g_focus % T.size();
         uint64_t s = r.next();
         api::Ctx c(s); c.maxlen = 300;
         T[e].fn(c);
@@ -81,6 +86,7 @@ void *thread_main(void *a_) {
     return nullptr;
 }
 int trial_main(const Case &c) {
+    g_focus = c.focus;
     if (c.family == 1) randombytes_set_implementation(&randombytes_internal_implementation);
     pthread_barrier_init(&g_bar, nullptr, (unsigned) c.nthreads);
     std::vector<pthread_t> th((size_t) c.nthreads); std::vector<TArg> args((size_t) c.nthreads);
@@ -95,19 +101,33 @@ int trial_main(const Case &c) {
 
 // ------------------------------------------------------------------ the exploring parent
 std::string g_self;
-struct TrialResult { bool ran; int zero, one, neg, overlap, bad_digest, again; bool race; std::string race_text; int status; };
+struct TrialResult { bool ran; int zero, one, neg, overlap, bad_digest, again; bool race; std::string race_text; int status; bool hung = false; };
+const double TRIAL_TIMEOUT_S = 180.0;
 TrialResult run_trial(const Case &c) {
-    TrialResult t{ false, 0, 0, 0, 0, 0, 0, false, "", 0 };
+    TrialResult t; t.ran = false; t.zero = t.one = t.neg = t.overlap = t.bad_digest = t.again = 0; t.race = false; t.status = 0;
     char tmpl[] = "/tmp/c19-XXXXXX"; int fd = mkstemp(tmpl); if (fd < 0) return t;
     pid_t pid = fork();
     if (pid == 0) {
         dup2(fd, 1); dup2(fd, 2);
         setenv("TSAN_OPTIONS", "halt_on_error=0:exitcode=66:report_signal_unsafe=0:second_deadlock_stack=1:history_size=4", 1);
-        std::string n = std::to_string(c.nthreads), s = std::to_string(c.seed), f = std::to_string(c.family), o = std::to_string(c.ops);
-        execl(g_self.c_str(), g_self.c_str(), "--trial", n.c_str(), s.c_str(), f.c_str(), o.c_str(), (char *) nullptr);
+        std::string n = std::to_string(c.nthreads), s = std::to_string(c.seed), f = std::to_string(c.family), o = std::to_string(c.ops), m = std::to_string(c.mask), fo = std::to_string(c.focus);
+        setenv("SODIUM_VERIF_CPU_MASK", m.c_str(), 1);       // read by the guarded hook in runtime.c when sodium_init detects CPU features
+        execl(g_self.c_str(), g_self.c_str(), "--trial", n.c_str(), s.c_str(), f.c_str(), o.c_str(), fo.c_str(), (char *) nullptr);
         _exit(127);
     }
-    int st = 0; waitpid(pid, &st, 0); close(fd);
+    // a trial normally takes well under 3 s; one that is still running after TRIAL_TIMEOUT_S is a hang (deadlock / livelock in
+    // the library: every concurrent sodium_init call must return) - it is killed and reported; the driver re-runs it 5 times
+    int st = 0; bool hung = false;
+    auto t0 = std::chrono::steady_clock::now();
+    for (;;) {
+        pid_t w = waitpid(pid, &st, WNOHANG);
+        if (w == pid) break;
+        if (w < 0) { st = 0x7f00; break; }
+        if (std::chrono::duration<double>(std::chrono::steady_clock::now() - t0).count() > TRIAL_TIMEOUT_S) { kill(pid, SIGKILL); waitpid(pid, &st, 0); hung = true; break; }
+        usleep(2000);
+    }
+    close(fd);
+    t.hung = hung;
     std::ifstream f(tmpl); std::string all((std::istreambuf_iterator<char>(f)), std::istreambuf_iterator<char>()); unlink(tmpl);
     t.status = st;
     size_t p = all.find("TRIAL zero=");
@@ -118,10 +138,18 @@ TrialResult run_trial(const Case &c) {
     return t;
 }
 int g_last_overlap = 0;
+// the exploring parent never initialises the library (each trial must race through sodium_init itself), so the masks are
+// listed explicitly instead of being derived from the detected features; a mask naming a feature the host lacks is harmless
+std::vector<unsigned long> trial_masks(bool all) {
+    std::vector<unsigned long> v = { F_ALL, F_ALL & ~F_AVX512F, F_ALL & ~(F_AVX512F | F_AVX2), F_ALL & ~(F_AVX512F | F_AVX2 | F_AVX | F_SSE41 | F_SSSE3), 0, F_ALL & ~(F_AESNI | F_PCLMUL) };
+    if (all) { v.push_back(F_ALL & ~(F_AVX512F | F_AVX2 | F_AVX)); v.push_back(F_ALL & ~(F_AVX512F | F_AVX2 | F_AVX | F_SSE41)); v.push_back(F_ALL & ~(F_AVX512F | F_AVX2 | F_AVX | F_SSE41 | F_SSSE3 | F_SSE3)); }
+    return v;
+}
 bool run(const Case &c, std::string &msg) {
     TrialResult t = run_trial(c);
     char b[2400];
     if (t.race) { snprintf(b, sizeof b, "ThreadSanitizer report with %d threads (family %s): %s", c.nthreads, c.family ? "internal RNG" : "default RNG", t.race_text.c_str()); msg = b; for (auto &ch : msg) if (ch == '\n') ch = '|'; return false; }
+    if (t.hung) { snprintf(b, sizeof b, "trial with %d threads (family %s) did not finish within %.0f s (normal: < 3 s): deadlock or livelock; output so far: %s", c.nthreads, c.family ? "internal RNG" : "default RNG", TRIAL_TIMEOUT_S, t.race_text.c_str()); msg = b; for (auto &ch : msg) if (ch == '\n') ch = '|'; return false; }
     if (!t.ran) { snprintf(b, sizeof b, "trial process died (status 0x%x): %s", t.status, t.race_text.c_str()); msg = b; for (auto &ch : msg) if (ch == '\n') ch = '|'; return false; }
     if (t.zero != 1 || t.one != c.nthreads - 1 || t.neg != 0) { snprintf(b, sizeof b, "sodium_init with %d racing threads returned 0 to %d, 1 to %d and -1 to %d of them (expected exactly one 0)", c.nthreads, t.zero, t.one, t.neg); msg = b; return false; }
     if (t.again != 1) { snprintf(b, sizeof b, "sodium_init after initialisation returned %d instead of 1", t.again); msg = b; return false; }
@@ -134,24 +162,51 @@ void explore_f(Ctx &ctx, int family) {
     Rng r = ctx.wrng(family ? "c19-internal" : "c19-default");
     int trials = (ctx.thorough() ? 4000 : (family ? 120 : 280)) / ctx.nworkers + 1;
     if (family == 1 && ctx.is_known("internal-rng-pid-race")) { ctx.excluded_known += (uint64_t) trials; if (ctx.worker == 0) { Case c{ 8, 42, 1, 2 }; exec_case(ctx, c, run, 1, true); } return; }
+    auto masks = trial_masks(true);
+    const auto &T = api::table();
     for (int i = 0; i < trials; i++) {
         Case c{ 2 + (int) r.below(15), r.next(), family, 1 + (int) r.below(6) };
+        // half of the trials run under a reduced CPU-feature mask (other backends); a third make every thread run the same
+        // API entry, which is what exposes function-local state that should have been per call
+        if (r.below(2)) c.mask = masks[r.below(masks.size())];
+        if (r.below(3) == 0) { c.focus = (int) r.below(T.size()); c.ops = 1 + (int) r.below(2); if (T[(size_t) c.focus].cost == 2 && c.nthreads > 6) c.nthreads = 2 + (int) r.below(5); }
         g_last_overlap = 0;
         bool ok = exec_case(ctx, c, run, mix64(mix64(c.nthreads, c.seed), family), true);
-        if (ok) { ctx.cls(g_last_overlap >= 2 ? "trials_with_overlapping_init" : "trials_without_overlap"); ctx.cls("threads=" + std::to_string(c.nthreads)); }
+        if (ok) { ctx.cls(g_last_overlap >= 2 ? "trials_with_overlapping_init" : "trials_without_overlap"); ctx.cls("threads=" + std::to_string(c.nthreads)); ctx.cls(c.mask == 0x3ff ? "mask=all" : "mask=reduced"); if (c.focus >= 0) ctx.cls("focused_on_one_api_entry"); }
     }
 }
-bool replay(const KV &k, std::string &msg) { Case c{ (int) k.gu("nthreads"), k.gu("seed"), (int) k.gu("family"), (int) k.gu("ops") }; return run(c, msg); }
+// every API-table entry run by all threads at once, under each dispatch-relevant CPU mask: function-local state that should have
+// been per call (a static scratch buffer in one SIMD backend, say) is then touched by two unsynchronised threads, which
+// happens-before race detection reports on any schedule
+void explore_focused(Ctx &ctx) {
+    const auto &T = api::table();
+    Rng r = ctx.rng("c19-focused");
+    std::vector<unsigned long> masks = trial_masks(ctx.thorough());
+    uint64_t idx = 0;
+    int reps = ctx.thorough() ? 4 : 1;
+    for (size_t e = 0; e < T.size(); e++)
+        for (unsigned long m : masks)
+            for (int rep = 0; rep < reps; rep++) {
+                uint64_t seed = r.next();
+                if (!ctx.mine(idx++)) continue;
+                Case c{ T[e].cost == 2 ? 3 : 3 + (int) ((e + (size_t) rep) % 4), seed, 0, T[e].cost == 2 ? 1 : 2 };
+                c.mask = m; c.focus = (int) e;
+                g_last_overlap = 0;
+                bool ok = exec_case(ctx, c, run, mix64(mix64(e, m), mix64(seed, 0xf0c)), true);
+                if (ok) ctx.cls(c.mask == 0x3ff ? "mask=all" : "mask=reduced");
+            }
+}
+bool replay(const KV &k, std::string &msg) { Case c{ (int) k.gu("nthreads"), k.gu("seed"), (int) k.gu("family"), (int) k.gu("ops") }; if (k.has("mask")) c.mask = (unsigned long) k.gu("mask"); if (k.has("focus")) c.focus = (int) k.gu("focus") - 1; return run(c, msg); }
 
 }  // namespace
 
 std::vector<Sub> vh_subs() {
-    return { { "default_rng", [](Ctx &c) { explore_f(c, 0); }, replay }, { "internal_rng", [](Ctx &c) { explore_f(c, 1); }, replay } };
+    return { { "default_rng", [](Ctx &c) { explore_f(c, 0); }, replay }, { "internal_rng", [](Ctx &c) { explore_f(c, 1); }, replay }, { "focused", explore_focused, replay } };
 }
 
 // main(): "--trial N SEED FAMILY OPS" runs one trial in this process, anything else is the usual harness
 int main(int argc, char **argv) {
-    if (argc >= 6 && std::string(argv[1]) == "--trial") { Case c{ atoi(argv[2]), strtoull(argv[3], nullptr, 10), atoi(argv[4]), atoi(argv[5]) }; return trial_main(c); }
+    if (argc >= 6 && std::string(argv[1]) == "--trial") { Case c{ atoi(argv[2]), strtoull(argv[3], nullptr, 10), atoi(argv[4]), atoi(argv[5]) }; if (argc >= 7) c.focus = atoi(argv[6]); return trial_main(c); }
     char buf[4096]; ssize_t n = readlink("/proc/self/exe", buf, sizeof buf - 1); if (n > 0) { buf[n] = 0; g_self = buf; } else g_self = argv[0];
     return vh::run_main(argc, argv);
 }
